@@ -110,7 +110,10 @@ func genTxnSchema(rng *rand.Rand, withRefs bool) TxnSchema {
 					rt = "weak"
 				}
 				cn := fmt.Sprintf("ref%d", k)
-				switch rng.Intn(5) {
+				switch rng.Intn(6) {
+				case 5:
+					// a scalar reference (exactly one): released, like the others, when its row goes
+					t.Cols = append(t.Cols, ColSpec{Name: cn, Type: ColType{Kind: "atom", Key: "uuid", Min: 1, Max: 1}, RefTable: target, RefType: rt})
 				case 0:
 					min := 0
 					if rt == "weak" && rng.Intn(2) == 0 {
@@ -626,6 +629,40 @@ func (g *txnGen) genColValue(c ColSpec) *Value {
 func (g *txnGen) genWhere(t TableSpec) []WCondJ {
 	rng := g.rng
 	ex := g.sh.uuids(t.Name)
+	if len(t.Indexes) > 0 && len(ex) >= 2 && rng.Intn(8) == 0 {
+		// the values one row holds in the columns of an index, and the uuid of another row: the lookup goes
+		// through the index and keeps nothing of what the index gave (which it must leave as it was)
+		holder, other := ex[rng.Intn(len(ex))], ex[rng.Intn(len(ex))]
+		if src := g.sh.rows[t.Name][holder]; src != nil && holder != other {
+			var where []WCondJ
+			for _, c := range t.Indexes[rng.Intn(len(t.Indexes))] {
+				if src[c] != nil {
+					where = append(where, WCondJ{Col: c, Fn: "==", Val: nativeToOvsValue(src[c])})
+				}
+			}
+			where = append(where, WCondJ{Col: "_uuid", Fn: "==", Val: VA(AU(other))})
+			if rng.Intn(2) == 0 {
+				where[0], where[len(where)-1] = where[len(where)-1], where[0]
+			}
+			return where
+		}
+	}
+	if rng.Intn(10) == 0 {
+		// equality with a proper part of the set a row holds, written with as many elements as the row has (one
+		// of them twice): not the row's set
+		for _, c := range t.Cols {
+			if c.Type.Kind != "set" || c.Type.Key == "uuid" {
+				continue
+			}
+			for _, u := range ex {
+				if cur := g.sh.rows[t.Name][u][c.Name]; cur != nil && len(cur.S) >= 2 {
+					part := append([]Atom{}, cur.S[:len(cur.S)-1]...)
+					part = append(part, part[rng.Intn(len(part))])
+					return []WCondJ{{Col: c.Name, Fn: []string{"==", "!="}[rng.Intn(2)], Val: &Value{K: 'S', S: part}}}
+				}
+			}
+		}
+	}
 	switch k := rng.Intn(12); {
 	case k >= 10 && len(ex) > 0:
 		// a row named by its uuid AND a guard on its contents (which holds or not), in either order
@@ -665,7 +702,24 @@ func (g *txnGen) genWhere(t TableSpec) []WCondJ {
 	default:
 		c := t.Cols[rng.Intn(len(t.Cols))]
 		fn := []string{"==", "!=", "includes", "excludes"}[rng.Intn(4)]
-		return []WCondJ{{Col: c.Name, Fn: fn, Val: nativeToOvsValue(g.genColValue(c))}}
+		val := nativeToOvsValue(g.genColValue(c))
+		if val.K == 'S' && len(val.S) > 0 && c.Type.Kind == "set" && rng.Intn(3) == 0 {
+			// a condition may write an element of its set twice: it is the same set
+			val.S = append(val.S, val.S[rng.Intn(len(val.S))])
+		}
+		if c.Type.Kind == "set" && rng.Intn(2) == 0 {
+			// ... in particular a proper part of what a row holds, written with as many elements as the row has
+			for _, u := range ex {
+				if cur := g.sh.rows[t.Name][u][c.Name]; cur != nil && len(cur.S) >= 2 {
+					part := append([]Atom{}, cur.S[:len(cur.S)-1]...)
+					part = append(part, part[rng.Intn(len(part))])
+					val = &Value{K: 'S', S: part}
+					fn = []string{"==", "!="}[rng.Intn(2)]
+					break
+				}
+			}
+		}
+		return []WCondJ{{Col: c.Name, Fn: fn, Val: val}}
 	}
 }
 
